@@ -2,6 +2,184 @@
 
 package mimetype
 
-func (g *vfGen) runMore9(slice string) bool { return false }
+import (
+	"fmt"
+	"strconv"
+	"strings"
 
-func vfExecMore9(f []string, op string) (string, bool) { return "", false }
+	"github.com/gabriel-vasile/mimetype/internal/magic"
+)
+
+func vfEarlierTextSibling(hdr []byte, lim uint32, target string) string {
+	mu.RLock()
+	defer mu.RUnlock()
+	for _, c := range root.children {
+		if c.mime == "text/plain" {
+			for _, t := range c.children {
+				if t.mime == target {
+					return "n"
+				}
+				if vfSafeDet(t.detector, hdr, lim) == "T" {
+					return "y"
+				}
+			}
+			return "n"
+		}
+		if vfSafeDet(c.detector, hdr, lim) == "T" {
+			return "y"
+		}
+	}
+	return "n"
+}
+
+func vfExecMore9(f []string, op string) (string, bool) {
+	switch f[0] {
+	case "lines": // lines kind hex lim
+		data := vfUnhex(f[2])
+		lim64, _ := strconv.ParseUint(f[3], 10, 32)
+		lim := uint32(lim64)
+		hdr, _ := vfExact(vfHeader(data, lim))
+		SetLimit(lim)
+		in, _ := vfExact(data)
+		m := Detect(in)
+		return fmt.Sprintf("%s => %s%s%s %s %s%s%s", op,
+			vfSafeDet(magic.NdJSON, hdr, lim)[:1], vfSafeDet(magic.Csv, hdr, lim)[:1], vfSafeDet(magic.Tsv, hdr, lim)[:1],
+			vfChain(m),
+			vfEarlierTextSibling(hdr, lim, "application/x-ndjson"), vfEarlierTextSibling(hdr, lim, "text/csv"), vfEarlierTextSibling(hdr, lim, "text/tab-separated-values")), true
+	case "dll": // dll hex lim : dropLastLine
+		data, _ := vfExact(vfUnhex(f[1]))
+		lim64, _ := strconv.ParseUint(f[2], 10, 32)
+		return fmt.Sprintf("%s => %s", op, vfHex(magic.VerifDropLastLine(data, uint32(lim64)))), true
+	}
+	return vfExecMore10(f, op)
+}
+
+func (g *vfGen) runMore9(slice string) bool {
+	switch slice {
+	case "C13":
+		g.genC13()
+	default:
+		return g.runMore10(slice)
+	}
+	return true
+}
+
+func (g *vfGen) cell() string {
+	n := 1 + g.rng.Intn(8)
+	b := make([]byte, n)
+	for i := range b {
+		b[i] = "abcdefghijklmnopqrstuvwxyz0123456789 .-_"[g.rng.Intn(40)]
+	}
+	return string(b)
+}
+
+func (g *vfGen) table(delim string, cols, rows int, nl string, ragged bool) string {
+	var sb strings.Builder
+	bad := -1
+	if ragged {
+		bad = 1 + g.rng.Intn(rows-1)
+	}
+	for r := 0; r < rows; r++ {
+		c := cols
+		if r == bad {
+			if g.rng.Intn(2) == 0 {
+				c = cols + 1
+			} else {
+				c = cols - 1
+			}
+		}
+		var cells []string
+		for i := 0; i < c; i++ {
+			cells = append(cells, g.cell())
+		}
+		sb.WriteString(strings.Join(cells, delim))
+		sb.WriteString(nl)
+	}
+	return sb.String()
+}
+
+func (g *vfGen) genC13() {
+	emitCuts := func(kind, s string, secondLineEnd int) {
+		b := []byte(s)
+		g.emit(vfOp("lines", kind, b, 0))
+		g.emit(vfOp("lines", kind, b, len(b)+1))
+		for l := secondLineEnd; l <= len(b)+1; l++ {
+			if g.thorough || l < secondLineEnd+12 || l > len(b)-3 || g.rng.Intn(6) == 0 {
+				g.emit(vfOp("lines", kind, b, l))
+				g.emit(vfOp("dll", b, l))
+			}
+		}
+	}
+	endOfLine2 := func(s string) int {
+		i := strings.Index(s, "\n")
+		j := strings.Index(s[i+1:], "\n")
+		return i + 1 + j + 1
+	}
+	n := g.pick(60, 1500)
+	for i := 0; i < n; i++ {
+		nl := []string{"\n", "\r\n"}[g.rng.Intn(2)]
+		// CSV / TSV tables
+		delim := []string{",", "\t"}[g.rng.Intn(2)]
+		kind := "csv"
+		if delim == "\t" {
+			kind = "tsv"
+		}
+		cols, rows := 2+g.rng.Intn(4), 3+g.rng.Intn(5)
+		t := g.table(delim, cols, rows, nl, false)
+		if g.rng.Intn(3) == 0 {
+			t = "# a comment line" + nl + t
+			emitCuts(kind+"-ok", t, endOfLine2(t[len("# a comment line"+nl):])+len("# a comment line"+nl))
+		} else {
+			emitCuts(kind+"-ok", t, endOfLine2(t))
+		}
+		r := g.table(delim, cols, rows, nl, true)
+		g.emit(vfOp("lines", kind+"-bad", []byte(r), 0))
+		g.emit(vfOp("lines", kind+"-bad", []byte(r), len(r)))
+		one := g.table(delim, 1, rows, nl, false)
+		g.emit(vfOp("lines", kind+"-one", []byte(one), 0))
+		// NDJSON streams
+		var lines []string
+		k := 3 + g.rng.Intn(4)
+		for j := 0; j < k; j++ {
+			switch g.rng.Intn(5) {
+			case 0:
+				lines = append(lines, g.jvalue(1))
+			case 1:
+				lines = append(lines, "")
+			default:
+				if g.rng.Intn(2) == 0 {
+					lines = append(lines, g.jobject(1))
+				} else {
+					lines = append(lines, g.jarray(1))
+				}
+			}
+		}
+		for j := range lines {
+			lines[j] = strings.NewReplacer("\n", " ", "\r", " ").Replace(lines[j])
+		}
+		s := strings.Join(lines, nl) + nl
+		emitCuts("nd-ok", s, endOfLine2(s))
+		// one damaged line
+		d := append([]string{}, lines...)
+		j := g.rng.Intn(len(d))
+		switch g.rng.Intn(4) {
+		case 0:
+			d[j] = `{"a":`
+		case 1:
+			d[j] = `[1,2`
+		case 2:
+			d[j] = d[j] + " x"
+		default:
+			d[j] = `{"a" 1}`
+		}
+		ds := strings.Join(d, nl) + nl
+		g.emit(vfOp("lines", "nd-bad", []byte(ds), 0))
+		g.emit(vfOp("lines", "nd-bad", []byte(ds), len(ds)))
+		g.emit(vfOp("lines", "nd-bad", []byte(ds), len(ds)+5))
+	}
+	for _, w := range []string{"{\"a\":\n{\"b\":\n", "1\n2\n", "{}\n", "{}\n{}", "{}\n{}\n", "[\n]\n", "true\ntrue\n{\"a\":1}\n", "  \n{}\n"} {
+		for _, l := range []int{0, len(w), len(w) + 1} {
+			g.emit(vfOp("lines", "any", []byte(w), l))
+		}
+	}
+}
